@@ -1,7 +1,10 @@
 import Qats.Prelude
 import Qats.Model.Names
 import Qats.Model.Registry
-/-! Line-protocol handlers for name selection (`nm.*`) and the registry state machine (`db.run`).
+import Qats.Model.Binding
+/-! Line-protocol handlers for name selection (`nm.*`), the registry state machine (`db.run`) and the content binding that
+runs alongside it (`db.bind`: per operation the root origin of every returned series and, per key of both databases, the
+registered record and the root origin of the cached object / the origin the next read will construct).
 Strings cross the protocol hex-encoded (two hex digits per character); `-` is the empty string / None. -/
 namespace Qats.Driver.Names
 open Qats Qats.Names Qats.Registry
@@ -87,10 +90,55 @@ def runOps (s : State) : List Op → List String
     let (s', o) := step s op
     (showOut o ++ " # " ++ digest s'.a ++ " # " ++ digest s'.b) :: runOps s' ops
 
+
+/-! ### `db.bind` -/
+
+/-- In-memory series are numbered in the order of the (successful) `add` operations. -/
+def addOrdinal (os : Binding.Origins) (id : Nat) : Nat :=
+  (os.filter fun p => match p.2 with
+    | .added i => i < id
+    | _ => false).length
+
+def showOrigin (os : Binding.Origins) : Option Binding.Origin → String
+  | some (.record f i) => "R:" ++ hex f ++ ":" ++ toString i
+  | some (.named f n) => "N:" ++ hex f ++ ":" ++ hex n
+  | some (.added id) => "M:" ++ toString (addOrdinal os id)
+  | some (.copyOf o) => "C:" ++ toString o
+  | none => "?"
+
+def showRec (os : Binding.Origins) : Option Binding.Rec → String
+  | some (.onFile f i n) => "F:" ++ hex f ++ ":" ++ toString i ++ ":" ++ hex n
+  | some (.mem id) => "M:" ++ toString (addOrdinal os id)
+  | none => "?"
+
+/-- per key in registration order: `key=record|origin`; origin of the cached object, or `~` + what a read would construct -/
+def bindDigest (os : Binding.Origins) (d : Db) (r : List (Str × Binding.Rec)) : String :=
+  if d.keys.isEmpty then "=" else
+  joinWith "," (d.keys.map fun k => hex k ++ "=" ++ showRec os (lookup r k) ++ "|" ++
+    (match lookup d.register k with
+      | some (some o) => showOrigin os (Binding.root os o)
+      | _ => "~" ++ showOrigin os (some (Binding.readOrigin d k))))
+
+def showBindOut (os : Binding.Origins) : Out → String
+  | .series l => "series " ++ (if l.isEmpty then "=" else
+      joinWith "," (l.map fun kv => hex kv.1 ++ "=" ++ showOrigin os (Binding.root os kv.2)))
+  | o => showOut o
+
+def bindOps (b : Binding.Bind) (s : State) : List Op → List String
+  | [] => []
+  | op :: ops =>
+    let b' := Binding.step b s op
+    let (s', o) := step s op
+    (showBindOut b'.origins o ++ " # " ++ bindDigest b'.origins s'.a b'.recA ++ " # " ++ bindDigest b'.origins s'.b b'.recB)
+      :: bindOps b' s' ops
+
 def handle : List String → Option String
   | "db.run" :: rest => do
     let ops ← (splitOn' ";" rest).mapM parseOp?
     some ("ok " ++ joinWith " ; " (runOps {} ops))
+  | "db.bind" :: rest => do
+    let ops ← (splitOn' ";" rest).mapM parseOp?
+    some ("ok " ++ joinWith " ; " (bindOps {} {} ops))
   | ["nm.fnmatch", pat, name] => do
     some (if fnmatch (← unhex? pat) (← unhex? name) then "ok 1" else "ok 0")
   | ["nm.escape", s] => do some ("ok " ++ hex (escapeSpecial (← unhex? s)))
